@@ -84,23 +84,23 @@ class TraceProp(Prop):
         if spec.get('shape') == 'nvparent' and rng.random() < 0.7:
             # the flush-time change: a non-versioned parent with versioned children is deleted on its own
             pos = rng.randrange(0, len(prog) + 1)
-            prog = ([['add', 'Category', [1], {'title': 1}], ['add', 'Article', [3], {'name': 1}],
-                     ['setrel', 'Article', [3], 'category', 'Category', [1]], ['commit']] + prog[:pos] +
-                    [['commit'], ['del', 'Category', [1]], ['commit']] + prog[pos:])
+            prog = ([['add', 'Category', [7], {'title': 1}], ['add', 'Article', [7], {'name': 1}],
+                     ['setrel', 'Article', [7], 'category', 'Category', [7]], ['commit']] + prog[:pos] +
+                    [['commit'], ['del', 'Category', [7]], ['commit']] + prog[pos:])
         if spec.get('shape') in ('joined', 'joined3') and rng.random() < 0.6:
             # row switches of joined-table subclass objects that leave a subclass-table column unset, with another
             # entity of the class earlier in the table
             pos = rng.randrange(0, len(prog) + 1)
-            prog = ([['add', 'Article', [1], {'name': 1, 'content': 1}], ['add', 'Article', [2], {'name': 2, 'content': 2}],
-                     ['add', 'Article', [3], {'name': 3, 'content': 3}], ['commit']] + prog[:pos] +
-                    [['commit'], ['del', 'Article', [2]], ['add', 'Article', [2], {'name': 0}], ['commit'],
-                     ['del', 'Article', [3]], ['add', 'Article', [3], {'content': 0}], ['commit']] + prog[pos:])
+            prog = ([['add', 'Article', [7], {'name': 1, 'content': 1}], ['add', 'Article', [8], {'name': 2, 'content': 2}],
+                     ['add', 'Article', [9], {'name': 3, 'content': 3}], ['commit']] + prog[:pos] +
+                    [['commit'], ['del', 'Article', [8]], ['add', 'Article', [8], {'name': 0}], ['commit'],
+                     ['del', 'Article', [9]], ['add', 'Article', [9], {'content': 0}], ['commit']] + prog[pos:])
         if spec.get('shape') == 'aliased' and rng.random() < 0.8:
             # transactions that change ONLY the attribute whose name differs from its column name
             pos = rng.randrange(0, len(prog) + 1)
-            prog = ([['add', 'Article', [3], {'name_': 1, 'content': 1}], ['commit']] + prog[:pos] +
-                    [['commit'], ['set', 'Article', [3], 'name_', 2], ['commit'], ['set', 'Article', [3], 'content', 2], ['flush'],
-                     ['set', 'Article', [3], 'name_', 3], ['commit']] + prog[pos:])
+            prog = ([['add', 'Article', [7], {'name_': 1, 'content': 1}], ['commit']] + prog[:pos] +
+                    [['commit'], ['set', 'Article', [7], 'name_', 2], ['commit'], ['set', 'Article', [7], 'content', 2], ['flush'],
+                     ['set', 'Article', [7], 'name_', 3], ['commit']] + prog[pos:])
         case = {'spec': spec, 'autoflush': autoflush, 'program': prog}
         import os
         if rng.random() < float(os.environ.get('VERIF_JOIN_P', '0.1')):
@@ -311,27 +311,6 @@ class C03(TraceProp):
         autoflush = rng.random() < 0.3
         prog = proggen.random_program(rng, spec, n, weights={'del': 4, 'readd': 4}, allow_class_switch=True, autoflush=autoflush)
         return {'spec': spec, 'autoflush': autoflush, 'program': prog}
-
-    def gen(self, rng, tier):
-        for c in TraceProp.gen(self, rng, tier):
-            yield c
-        # class switches of a key WITHIN a transaction in joined hierarchies whose root loads its subclass tables
-        # eagerly (with_polymorphic), in every direction, followed by later transactions on the key
-        from .. import envs
-        for _ in range(12 if tier == 'quick' else 300):
-            levels = rng.choice([2, 3])
-            spec = envs.shape_joined({'strategy': 'validity'}, levels, plugins=[])
-            spec['shape'] = 'joined' if levels == 2 else 'joined3'
-            if rng.random() < 0.7:
-                spec['classes'][0]['with_polymorphic'] = '*'
-            names = [c['name'] for c in spec['classes']]
-            a, b = rng.sample(names, 2)
-            prog = [['add', a, [1], {'name': 1}], ['add', names[-1], [2], {'name': 2}], ['commit'],
-                    ['del', a, [1]], ['flush'], ['add', b, [1], {'name': 3}], ['commit'],
-                    ['set', b, [1], 'name', 4], ['commit']]
-            if rng.random() < 0.5:
-                prog += [['del', b, [1]], ['flush'], ['add', a, [1], {'name': 5}], ['flush'], ['set', a, [1], 'name', 6], ['commit']]
-            yield {'spec': spec, 'autoflush': False, 'program': prog, 'family': 'class_switch_within_tx'}
 
     def class_switch(self, case):
         """does the program re-create a key as another class of its hierarchy?"""
